@@ -395,3 +395,12 @@ package tq
 //@   assumed
 //@   props C18
 //@   modifies fresh
+
+// C15: the back-off before a retry is bounded: whatever the retry count (the
+// doubling may overflow or shift everything out), the delay handed to
+// time.Now().Add is never negative and never longer than lfs.transfer.maxretrydelay.
+//@ func (*retryCounter).ReadyTime
+//@   props C15
+//@   requires @inv r != nil && r.MaxRetryDelay >= 0 && r.MaxRetryDelay <= 1000000
+//@   modifies fresh
+//@   at call (time.Time).Add:1 assert arg1__ >= 0 && arg1__ <= r.MaxRetryDelay * 1000000000
